@@ -10,7 +10,10 @@ positions, same multiplicity, same order.
   * `types` / `directives` — `HashMap::insert` in document order: the LAST definition of a name wins
     (`lastTypeDef?`, `lastDirectiveDef?`).
 The two only differ on documents that define a name twice (which `resolve_schema_extensions` lets through
-for definitions of different kinds and for directive definitions).
+for definitions of different kinds and for directive definitions). Since fix 8cdbacf the checker itself starts
+with `check_unique_names` (`checkUniqueNames`): a repeated type name (across kinds; also a user type that takes
+the name of a built-in-position type) and a repeated user directive name get `DuplicatedName`; re-declaring a
+built-in directive stays allowed.
 
 The document is the *resolved* one (no extensions; built-ins included as data). Extension items, which
 `TypeSystemDocument` cannot contain, are ignored.
@@ -195,9 +198,46 @@ def checkItem (T : TsDoc) (S : Schema) : TsItem → List Err
   | .schemaExt _ => []
   | .typeExt _ => []
 
-/-- `check_type_system_document(document)` -/
-def checkSchema (T : TsDoc) : List Err :=
+/-! ### `check_unique_names` (fix 8cdbacf) -/
+
+/-- the `match (other.position.builtin, name.position.builtin)` of `check_unique_names`: which of the two
+    identifiers of one name is reported, if any. `other` is the identifier seen EARLIER, `cur` the current one. -/
+def uniqueReport (isType : Bool) (other cur : Pos) : List Err :=
+  match other.builtin, cur.builtin with
+  | false, false => [(.DuplicatedName, cur)]
+  | false, true => if isType then [(.DuplicatedName, other)] else []
+  | true, false => if isType then [(.DuplicatedName, cur)] else []
+  | true, true => []
+
+/-- one iteration: `seen.iter().find(|other| other.name == name.name)` — the FIRST identifier pushed with that
+    name — then the report -/
+def uniqueStep (isType : Bool) (seen : List (Name × Pos)) (name : Name) (pos : Pos) : List Err :=
+  match seen.find? (·.1 == name) with
+  | none => []
+  | some other => uniqueReport isType other.2 pos
+
+/-- the `for def in document.definitions` loop of `check_unique_names` with its two vectors `seen_types`,
+    `seen_directives` (in push order); schema definitions are skipped -/
+def checkUniqueNamesAux : List (Name × Pos) → List (Name × Pos) → TsDoc → List Err
+  | _, _, [] => []
+  | st, sd, .typeDef t :: r =>
+    uniqueStep true st t.name t.namePos ++ checkUniqueNamesAux (st ++ [(t.name, t.namePos)]) sd r
+  | st, sd, .directiveDef d :: r =>
+    uniqueStep false sd d.name d.namePos ++ checkUniqueNamesAux st (sd ++ [(d.name, d.namePos)]) r
+  | st, sd, _ :: r => checkUniqueNamesAux st sd r
+
+/-- `check_unique_names(document, &mut result)` -/
+def checkUniqueNames (T : TsDoc) : List Err := checkUniqueNamesAux [] [] T
+
+/-- the `for def in document.definitions { match def … }` loop of `check_type_system_document`: the
+    per-definition diagnostics. This is ALL the function reported before fix 8cdbacf (pre-repair witnesses are
+    stated about it). -/
+def checkSchemaItems (T : TsDoc) : List Err :=
   T.flatMap (checkItem T ⟨T⟩)
+
+/-- `check_type_system_document(document)`: the name-uniqueness diagnostics first, then the per-definition ones -/
+def checkSchema (T : TsDoc) : List Err :=
+  checkUniqueNames T ++ checkSchemaItems T
 
 /-! ### the duplicate-definition rule of `resolve_schema_extensions` -/
 
